@@ -10,4 +10,6 @@ def sanitise_is_clamp_min_max : Bool := true
 /-- Transport._parse_channel_open hands chan._set_remote_channel the three values parsed from the peer's
     CHANNEL_OPEN (names assigned exactly once, by m.get_int()) -/
 def peer_open_passes_parsed_values : Bool := true
+/-- the methods of class Channel that assign `self.in_window_sofar` -/
+def sofar_writers : List String := ["__init__", "_set_window", "_check_add_window"]
 end PV.Generated.C19
